@@ -20,7 +20,7 @@ def prev_ks(h, ki, n):
 
 
 C04_TAGS = ("refuse", "cmpref", "inv", "audit", "notin")
-C19_TAGS = ("accept", "endorsed", "stateless", "connected", "mpvalid", "mpgen", "cmpok")
+C19_TAGS = ("accept", "endorsed", "stateless", "connected", "mpvalid", "mpgen", "cmpok", "payout")
 
 
 class RulesGen(WorldGen):
@@ -757,8 +757,18 @@ def case_c19(rng, steps=14, mempool=False):
             g.on("endorsed", t, a, tag=("endorsed", t))
         if r.chance(1, 3):
             g.on("audit", tag=("audit",))
-        if r.chance(1, 3):
+        if r.chance(1, 2):
+            # endorsements of the block at height(tip)+1-delay that sit on the active chain must be paid
+            delay = max(g.cfg.get("payout_delay", 50), s)
+            he = g.alt[a]["height"] + 1 - delay
+            anc = g.ancestry(a)
             g.on("payout", a)
+            if he >= 1:
+                E = anc[he]
+                for x in anc[he + 1:]:
+                    for t in g.alt[x]["atvs"]:
+                        if g.atv[t]["endorsed"] == E:
+                            g.on("paid", t, a, tag=("payout", t))
         if r.chance(1, 4):
             o = r.choice(blocks)
             g.verdict(o, tag=("accept", o))
@@ -801,6 +811,10 @@ def evaluate(g, res, prefix):
             ok = got == "111" or got.startswith("SKIP")
         elif k == "stateless":
             ok = got == "ok"
+        elif k == "payout":
+            # an endorsement on the active chain inside the payout window is paid when its block of proof is on
+            # the VBK best chain (endorsements proven on VBK forks do not count)
+            ok = got.startswith("1") or got == "0 bopfork" or got.startswith("SKIP")
         elif k == "cmpok":
             ok = got.split(" ")[0] in ("-1", "0", "1") or got.startswith("SKIP")
         if not ok:
@@ -1048,6 +1062,15 @@ def check(vlib, ctx, which, cases):
     ctx.cov["distinct_nontrivial"] = len({(g.meta["mutation"], g.meta.get("depth"), g.meta.get("desc"), len(g.lines)) for _, g in cases})
     ctx.cov["rules"] = {"histories_per_rule": hist, "verdict_kinds": kinds, "op_histogram": ops,
                         "aborted_histories": [a[0] for a in aborted], "oracle_lines": len(orc)}
+    ctx.cov["trusted_base"] = [
+        "harness/h_rules.cpp: independent audit of the active chain (own keystone arithmetic, own ancestry walk on the "
+        "registry, BTC references tracked per containing VBK block), error-kind mapping of ValidationState paths",
+        "props/_rules.py: id-level mirror of the registry (checked: every registry answer is compared with the prediction) "
+        "and the declarations handed to the model; payload descriptions are cross-checked (atvinfo/vtbinfo: real payload "
+        "bytes vs declaration; honest context info is computed by the extracted create_from_previous)",
+        "model scope: validity of a body given what its chain made known; VBK/BTC header rules, VBK-level fork choice and "
+        "the exact inverse of unapply are outside (C15, C01/C02)",
+    ]
     for p, g in cases[:2] + cases[-1:]:
         ctx.sample({"history": p, "meta": g.meta, "first_lines": g.lines[:6],
                     "verdicts": [ires.get("%s.%d" % (p, i + 1)) for i, l in enumerate(g.lines) if " verdict " in l][:4]})
